@@ -111,12 +111,43 @@ def qSlice (field : List Tree) (q : List QItem) : Option (List Tree) :=
       | none => none
       | some l => some ((field.drop f).take (l - f))
 
+/-! ### virtual fields (`Call._args`, `ClassDef._bases`): args and keywords merged in source order -/
+
+/-- One `FSTMatch` of a quantifier capture before the index mapping: an element is named by its real field
+(`kind`: 0 = `args` / `bases` / any ordinary list field, 1 = `keywords`) and its index in that field (`pfield.idx`). -/
+inductive RItem where
+  | one (kind idx : Nat)
+  | many (items : List (Nat × Nat))
+deriving Repr, Inhabited
+
+/-- `parent._cached_arglikes().index(matched.a)`: position of the element (kind, idx) in the virtual field, whose
+layout `order` lists the (kind, idx) of every element in source order.  For an ordinary list field `order` is
+`[(0,0), (0,1), …]` and the mapping is the identity. -/
+def virtIdx : List (Nat × Nat) → Nat × Nat → Nat
+  | [], _ => 0
+  | o :: rest, p => if o.1 == p.1 && o.2 == p.2 then 0 else virtIdx rest p + 1
+
+/-- an element at virtual index v: start = v, stop = v + 1 (`idx + 1 if last else idx`) -/
+def virtPairs (order : List (Nat × Nat)) : List (Nat × Nat) → List (Nat × Nat)
+  | [] => []
+  | p :: r => (virtIdx order p, virtIdx order p + 1) :: virtPairs order r
+
+/-- the `if parent_cls is Call: if field in ('args', 'keywords'): idx = parent._cached_arglikes().index(matched.a)`
+step of `_sub_quantifier_list_edge_item`, applied to every element -/
+def virtQ (order : List (Nat × Nat)) : List RItem → List QItem
+  | [] => []
+  | .one k i :: r => .one (virtIdx order (k, i)) (virtIdx order (k, i) + 1) :: virtQ order r
+  | .many l :: r => .many (virtPairs order l) :: virtQ order r
+
 /-- A tag value of a match: a node, a whole list field (`FSTView`), or a quantifier list (with the content of the
-list field the matched elements live in). `stmts`: the slice container is a `Module` (statement slice). -/
+list field the matched elements live in). `stmts`: the slice container is a `Module` (statement slice).
+`qlistV`: quantifier list whose elements live in real fields of a virtual field (`field` = the virtual field's
+elements in source order, `order` = their (kind, idx)). -/
 inductive Cap where
   | one (t : Tree) (isRoot : Bool)          -- `isRoot`: `repl_slot_new is matched`
   | view (ts : List Tree) (stmts : Bool)
   | qlist (field : List Tree) (q : List QItem) (stmts : Bool)
+  | qlistV (field : List Tree) (order : List (Nat × Nat)) (q : List RItem) (stmts : Bool)
 deriving Repr, Inhabited
 
 abbrev Env := List (Nat × Cap)
@@ -139,6 +170,10 @@ def resolve (env : Env) (matched : Tree) : Option Nat → RCap
     | some (.view ts s) => .slice (cleanList ts) s
     | some (.qlist f q s) =>
       match qSlice f q with
+      | none => .none
+      | some ts => .slice (cleanList ts) s
+    | some (.qlistV f order q s) =>
+      match qSlice f (virtQ order q) with
       | none => .none
       | some ts => .slice (cleanList ts) s
 
